@@ -44,6 +44,7 @@ type World struct {
 	allTypes  map[string]*types.Package
 	extDir    string
 	stmtCache map[token.Pos]string
+	stmtPos   map[token.Pos]token.Pos
 }
 
 func loadWorld(repo string, patterns []string, extDir string) (*World, error) {
@@ -425,6 +426,10 @@ func (w *World) stmtTextAt(pos token.Pos) string {
 			switch n.(type) {
 			case *ast.AssignStmt, *ast.IncDecStmt, *ast.ReturnStmt, *ast.ExprStmt, *ast.DeferStmt, *ast.GoStmt, *ast.SendStmt:
 				t = w.nodeText(n)
+				if w.stmtPos == nil {
+					w.stmtPos = map[token.Pos]token.Pos{}
+				}
+				w.stmtPos[pos] = n.Pos()
 			}
 			if t != "" {
 				break
